@@ -17,7 +17,8 @@ for status in ("known", "fixed"):
     out.append("")
 open(root + '/FINDINGS.md', 'w').write("\n".join(out))
 rows = ["| change | library site (from the sub-agent's notes) | result |", "|---|---|---|"]
-for sd in sorted(glob.glob(root + '/seeded/*')):
+for sd in sorted(glob.glob(root + '/seeded/*/')):
+    sd = sd.rstrip('/')
     m = json.load(open(sd + '/meta.json'))
     notes = open(sd + '/notes.md').read() if os.path.exists(sd + '/notes.md') else ''
     site = ''
